@@ -4,7 +4,7 @@
    an obligation here. *)
 From Coq Require Import ZArith List Bool.
 Require Import Model.Base Model.Ir Model.Propagate Gen.DegreeTable Spec.PolyDeg.
-Require Import Proofs.PolyDegProofs Proofs.DegreeProofs.
+Require Import Model.Justify Model.DegJustify Spec.DegSem Proofs.PolyDegProofs Proofs.DegreeProofs Proofs.DegGraphProofs.
 Import ListNotations.
 Local Open Scope Z_scope.
 
@@ -70,6 +70,37 @@ Theorem C07_inf_bound_sound : forall (V : Type) line p a b (F : V -> Z),
 Proof. exact inf_bound_sound. Qed.
 Print Assumptions C07_inf_bound_sound.
 
+(* GRAPH LEVEL: on an array-free graph accepted by the validator
+   DegJustify.djust_cfg (which the check runs on the implementation's real
+   annotated graph), in every state reachable by the step relation of
+   Spec.DegSem - cells hold their value as a function of the valuation; signals
+   and component ports are independent indeterminates; the control flow does not
+   depend on the valuation - the upper end of every degree range attached to a
+   node bounds the degree of the node's value.  For a range whose upper end is
+   Quadratic this is exactly "the expression is a polynomial of total degree at
+   most two in the signals", the claim behind `unnecessary signal assignment`. *)
+Theorem C07_validated_graph_degrees_true :
+  forall (V : Type) (line : V -> V -> Z -> V) (p : Z)
+         (sem2 : infix_op -> Z -> Z -> Z) (sem1 : prefix_op -> Z -> Z) (call_sem : ident -> list Z -> Z),
+  (forall op, op_den p op (sem2 op)) -> (forall op, prefix_den p op (sem1 op)) ->
+  forall c, djust_cfg c = true ->
+  forall s0 s e F r,
+  finit_ok V line p c s0 -> freachable V p sem2 sem1 call_sem c s0 s ->
+  djust_expr c e = true -> den V p sem2 sem1 call_sem s e = Some F -> expr_deg e = Some r ->
+  SemDeg V line p (snd r) F.
+Proof. exact justified_degrees_true. Qed.
+Print Assumptions C07_validated_graph_degrees_true.
+
+(* the step relation keeps every cell within the range its reads carry *)
+Theorem C07_step_preserves :
+  forall (V : Type) (line : V -> V -> Z -> V) (p : Z)
+         (sem2 : infix_op -> Z -> Z -> Z) (sem1 : prefix_op -> Z -> Z) (call_sem : ident -> list Z -> Z),
+  (forall op, op_den p op (sem2 op)) -> (forall op, prefix_den p op (sem1 op)) ->
+  forall c, djust_cfg c = true ->
+  forall s s', fstore_ok V line p c s -> fstep V p sem2 sem1 call_sem c s s' -> fstore_ok V line p c s'.
+Proof. exact fstep_preserves. Qed.
+Print Assumptions C07_step_preserves.
+
 (* non-vacuity: over valuations Z with line rho delta t = rho + t*delta, the
    identity has degree 1, its square degree 2, and the square is not linear mod 7 *)
 Example C07_square_is_quadratic_not_linear :
@@ -82,9 +113,9 @@ Proof.
   - intros H. specialize (H 0 1 0). vm_compute in H. discriminate.
 Qed.
 
-(* Not yet reached by proof (reported as an open statement in the evidence):
-   lifting the operator-level theorems above to whole annotated graphs, i.e.
-   that every range Model.Propagate attaches to a node is SemDeg-true of the
-   node's value as a function of the signal valuation along executions whose
-   branch decisions do not depend on the signals. The check establishes the
-   claim per explored definition with the finite-difference oracle. *)
+(* Not reached by proof (reported as open statements in the evidence): array
+   forms (excluded from the validator: known finding C07-array-degree), joins
+   under signal-dependent control (outside the step relation: known finding
+   C07-ctl-merge), and a universal theorem that Model.Propagate's degree passes
+   always produce a graph accepted by djust_cfg (established per explored
+   definition by running the validator on the implementation's output). *)
